@@ -86,10 +86,10 @@ def quest(chk, prog, tier):
     chk.touch(f)
     body = f.body()
     widx = max((i for i, s in enumerate(body) if isinstance(s, ast.While)), default=None)
-    if widx is None:
-        chk.error("QUEST: Newton loop not found")
-        return
     kw = dict(module=f.module.rel, function=f.qname, line=f.node.lineno)
+    if widx is None:
+        quest_whole(chk, prog, f, kw)
+        return
     lam = P.sym("lam")
 
     def prefix_env(acc, mag, wts, g_q, m_q):
@@ -163,6 +163,41 @@ def quest(chk, prog, tier):
     chk.ob("QUEST.consistent", f.ref, "for consistent data of any positive magnitudes w0 + w1 is a root of phi and [gamma, Chi] is proportional to q^", consistent, construct="exact recovery", **kw)
 
 
+def quest_whole(chk, prog, f, kw):
+    """QUEST.estimate no longer contains the Newton loop itself (it was moved into helpers): the same two obligations on the class as a whole --
+    every Newton update of the class divides by the derivative of its numerator, and the interpretation of the whole estimate() on consistent data of
+    any positive magnitudes (the iteration starts at lambda = w0 + w1, which is then an exact root, so the loop leaves it unchanged) is proportional to q^"""
+    from sa.lib import newton_derivative
+    cls = prog.cls(F + "quest.py::QUEST")
+
+    def newton():
+        found = None
+        for m_ in cls.methods.values():
+            r_ = newton_derivative(prog, m_)
+            if not (isinstance(r_, tuple) and r_[0] is None):
+                found = r_ if (found is None or found is True) else found
+        return found if found is not None else (None, "no Newton update  x -= u/v  found in class QUEST")
+    chk.ob("QUEST.newton", f.ref, "phi_prime == d phi / d lambda", newton, construct="Newton derivative", **kw)
+    q = unit_syms("cq")
+    E = E_ref(q)
+    dip = unit_vec("qdip", 2)
+    g_q = np.array([P.ZERO, P.ZERO, P.ONE], dtype=object)
+    m_q = np.array([dip[0], P.ZERO, dip[1]], dtype=object)
+    wts = np.array([P.sym("w0"), P.sym("w1")], dtype=object)
+
+    def consistent():
+        sa_, sm_ = P.sym("qs1"), P.sym("qs2")
+        P.declare_positive(sa_)
+        P.declare_positive(sm_)
+        it = Interp(prog, oracle=lambda c, i: (False if c.op in (">", ">=") else True) if c.op in (">", ">=", "<", "<=") and c.lhs is not None and getattr(c.lhs, "is_zero", lambda: False)() else None,
+                    config={"max_while": 40})
+        obj = it.make_obj(F + "quest.py::QUEST", w=wts, g_q=g_q, m_q=m_q)
+        out = to_obj(it.run(f, [sa_ * (E.T @ g_q), sm_ * (E.T @ m_q)], self_obj=obj))
+        return either(("q", lambda: prop_to(out, q, "estimate ~ q")), ("q*", lambda: prop_to(out, conj(q), "estimate ~ q*")))
+    chk.ob("QUEST.consistent", f.ref, "for consistent data of any positive magnitudes the estimate is proportional to q^ (whole-method interpretation)", consistent,
+           construct="exact recovery", **kw)
+
+
 def oleq(chk, prog):
     fo = prog.func(F + "oleq.py::OLEQ.WW")
     fr = prog.func(F + "roleq.py::ROLEQ.WW")
@@ -181,14 +216,36 @@ def oleq(chk, prog):
             W = to_obj(it.run(f, [E.T @ ru, ru], self_obj=obj))
             return all_of(eq(W, W.T, "W symmetric"), either(("q", lambda: eq(W @ q, q, "W q")), ("q*", lambda: eq(W @ conj(q), conj(q), "W q*"))))
         chk.ob("OLEQ.fixed", f.ref, "W(E(q)^T r, r) q^ == q^ for a unit reference r", law, module=f.module.rel, function=f.qname, construct="fixed direction", line=f.node.lineno)
-    # the iteration matrix is 1/2 (I + sum a_i W_i)
+    # the iteration matrix is 1/2 (I + sum a_i W_i): decided by interpreting estimate() for ONE step of the power iteration with the two W matrices and the
+    # random start vector kept as opaque symbols (wherever in the class the loop and the matrix are written)
     fe = prog.func(F + "oleq.py::OLEQ.estimate")
     chk.touch(fe)
-    txt = ast.unparse(fe.node)
-    if "R = 0.5 * (np.identity(4) + sum_aW)" in txt and "sum_aW = self.a[0] * self.WW(acc, self.a_ref) + self.a[1] * self.WW(mag, self.m_ref)" in txt:
-        chk.record("OLEQ.matrix", fe.ref, "R = 1/2 (I + a0 W(acc, a_ref) + a1 W(mag, m_ref))")
-    else:
-        chk.error("OLEQ.estimate: iteration matrix not in the recognised form")
+
+    def matrix():
+        Ws = []
+
+        def ww(it_, args, kwargs):
+            Wk = sym_mat("OW%d" % len(Ws), 4, 4)
+            Ws.append(Wk)
+            return Wk
+        q0 = sym_vec("oq0", 4)
+        seq = [True, False]
+
+        def oracle(c, it_):
+            if c.op in (">", ">=", "<", "<="):
+                return seq.pop(0) if seq else False
+            return None
+        it2 = Interp(prog, oracle=oracle, intercepts={fo.ref: ww, "np.random.random": lambda it_, a_, k_: q0 + P.const(Fraction(1, 2))}, config={"max_while": 4})
+        a0, a1 = P.sym("oa0"), P.sym("oa1")
+        obj = it2.make_obj(F + "oleq.py::OLEQ", a=np.array([a0, a1], dtype=object), a_ref=unit_vec("oar"), m_ref=unit_vec("omr"))
+        out = to_obj(it2.run(fe, [unit_vec("oacc"), unit_vec("omag")], self_obj=obj))
+        if len(Ws) != 2:
+            return (None, "estimate() built %d W matrices, 2 expected" % len(Ws))
+        R = (I(4) + a0 * Ws[0] + a1 * Ws[1]) / 2
+        return prop_to(out, R @ q0, "first iterate ~ 1/2 (I + a0 W1 + a1 W2) q0")
+    from fractions import Fraction
+    chk.ob("OLEQ.matrix", fe.ref, "one step of the iteration multiplies the start vector by R = 1/2 (I + a0 W(acc, a_ref) + a1 W(mag, m_ref))", matrix,
+           module=fe.module.rel, function=fe.qname, construct="iteration matrix", line=fe.node.lineno)
 
 
 def flae(chk, prog, tier):
